@@ -86,7 +86,8 @@ def check(ctx, report):
             report.undecided.append('%s: %s' % (c.name, nondsl[c.name]))
             continue
         if kind == 'binary':
-            cmpn = compare_class(c, ctx.canon)
+            hdr = reviewed.get(c.name, {}).get('strip_header')
+            cmpn = compare_class(c, ctx.canon, strip_header=tuple(hdr) if hdr else None)
             n_el = len(cmpn.pairs)
             report.count('C01.R1', 1, nontrivial=1 if n_el >= 2 else 0)
             report.count('C01.R2', sum(1 for a, b in cmpn.pairs if a.key is not None and b.val is not None))
@@ -113,6 +114,10 @@ def check(ctx, report):
             text_bindings(ctx, c, report)
         else:
             report.count('C01.R1', 1, nontrivial=0)
+    if 'SslRecord' in reviewed and reviewed['SslRecord'].get('strip_header'):
+        # the header left out of the element-wise comparison above
+        from .c06 import ssl2_header
+        ssl2_header(ctx, report, RULE='C01.R1h')
     for name in reviewed:
         if name not in seen_reviewed:
             report.error('C01.R1: reviewed class %s no longer analysed (anchor vanished)' % name)
